@@ -195,7 +195,6 @@ package netceptor
 //@ lemma hopbound
 //@   tags C10
 //@   vars k int
-//@   smt (declare-fun T (Int) Int)
 //@   hyp H0: uf("T", "int", 0) <= fwdcount(0)
 //@   hyp HS: forall h int :: h > 0 ==> uf("T", "int", h) <= fwdcount(h) + uf("T", "int", fwdttl(h))
 //@   hyp IH: k >= 0 && uf("T", "int", k) <= k
